@@ -212,4 +212,112 @@ theorem sum_perm {l l' : List Rat} (h : l.Perm l') : HoverSpec.sum l = HoverSpec
   | swap x y l => simp only [HoverSpec.sum]; grind
   | trans _ _ ih1 ih2 => exact ih1.trans ih2
 
+/-! ### The lines of the "Balance" section -/
+
+def keys (m : Balances) : List (Bytes × Bytes) := m.map (·.1)
+
+theorem keys_balAdd (m : Balances) (k : Bytes × Bytes) (q : Dec) :
+    keys (balAdd m k q) = if k ∈ keys m then keys m else keys m ++ [k] := by
+  induction m with
+  | nil => simp [balAdd, keys]
+  | cons e r ih =>
+    obtain ⟨ke, v⟩ := e
+    unfold balAdd
+    by_cases hk : ke = k
+    · subst hk; simp [keys]
+    · have hk' : ¬ k = ke := fun e => hk e.symm
+      simp only [hk, if_false]
+      simp only [keys, List.map_cons, List.mem_cons, hk', false_or] at ih ⊢
+      rw [ih]
+      split <;> simp [*]
+
+theorem nodup_balAdd (m : Balances) (k : Bytes × Bytes) (q : Dec) (h : (keys m).Nodup) :
+    (keys (balAdd m k q)).Nodup := by
+  rw [keys_balAdd]
+  split
+  · exact h
+  · next hn =>
+    rw [List.nodup_append]
+    exact ⟨h, by simp, by intro a ha b hb; simp at hb; subst hb; intro e; subst e; exact hn ha⟩
+
+theorem nodup_balPostings (m : Balances) (ps : List Posting) (h : (keys m).Nodup) :
+    (keys (balPostings m ps)).Nodup := by
+  induction ps generalizing m with
+  | nil => simpa [balPostings] using h
+  | cons p ps ih =>
+    have hstep : balPostings m (p :: ps) = balPostings
+        (match p.amount with | none => m | some am => balAdd m (p.account.name, am.commodity.symbol) am.quantity) ps := by
+      rfl
+    rw [hstep]
+    apply ih
+    cases p.amount with
+    | none => exact h
+    | some am => exact nodup_balAdd _ _ _ h
+
+theorem nodup_accountBalances (txs : List Transaction) : (keys (accountBalances txs)).Nodup := by
+  rw [accountBalances_eq]
+  exact nodup_balPostings [] _ (by simp [keys])
+
+theorem lookup_of_mem (m : Balances) (k : Bytes × Bytes) (v : Dec) (h : (keys m).Nodup)
+    (hm : (k, v) ∈ m) : balLookup m k = some v := by
+  induction m with
+  | nil => cases hm
+  | cons e r ih =>
+    obtain ⟨ke, ve⟩ := e
+    simp only [keys, List.map_cons, List.nodup_cons] at h
+    rcases List.mem_cons.mp hm with heq | hr
+    · cases heq; simp [balLookup]
+    · have hne : ke ≠ k := by
+        intro e; subst e
+        exact h.1 (List.mem_map.mpr ⟨(ke, v), hr, rfl⟩)
+      have hb : (ke == k) = false := by simpa using hne
+      have := ih h.2 hr
+      simp only [balLookup, List.find?_cons, hb] at this ⊢
+      exact this
+
+theorem mem_of_lookup (m : Balances) (k : Bytes × Bytes) (v : Dec) (h : balLookup m k = some v) :
+    (k, v) ∈ m := by
+  induction m with
+  | nil => simp [balLookup] at h
+  | cons e r ih =>
+    obtain ⟨ke, ve⟩ := e
+    by_cases hk : ke = k
+    · subst hk
+      simp [balLookup] at h
+      subst h
+      exact List.mem_cons_self
+    · have hb : (ke == k) = false := by simpa using hk
+      simp only [balLookup, List.find?_cons, hb] at h ih
+      exact List.mem_cons_of_mem _ (ih h)
+
+theorem mem_insertBy {α} (le : α → α → Bool) (x y : α) (l : List α) :
+    y ∈ insertBy le x l ↔ y = x ∨ y ∈ l := by
+  induction l with
+  | nil => simp [insertBy]
+  | cons z zs ih =>
+    unfold insertBy
+    split
+    · simp
+    · simp only [List.mem_cons, ih]
+      grind
+
+theorem mem_sortBy {α} (le : α → α → Bool) (y : α) (l : List α) : y ∈ sortBy le l ↔ y ∈ l := by
+  induction l with
+  | nil => simp [sortBy]
+  | cons z zs ih =>
+    simp only [sortBy, List.foldr_cons, List.mem_cons] at ih ⊢
+    rw [mem_insertBy, ih]
+
+theorem mem_lines (m : Balances) (a c : Bytes) (v : Dec) :
+    (c, v) ∈ accountBalanceLines m a ↔ ((a, c), v) ∈ m := by
+  unfold accountBalanceLines
+  rw [mem_sortBy]
+  simp only [List.mem_map, List.mem_filter, beq_iff_eq]
+  constructor
+  · rintro ⟨⟨⟨a', c'⟩, v'⟩, ⟨hm, ha⟩, he⟩
+    simp only at ha he
+    cases he; subst ha; exact hm
+  · intro h
+    exact ⟨((a, c), v), ⟨h, rfl⟩, rfl⟩
+
 end HL.Lemmas.Hover
